@@ -1,2 +1,2 @@
 CONSTANT MaxDefs = 3
-CONSTANT PoolSize = 32
+CONSTANT PoolSize = 35
